@@ -106,7 +106,7 @@ def cases(seed, tier):
     if tier == "quick":
         n_tri, n_poly, n_tet, sizes = 100, 80, 50, [2, 3, 4, 5]
     else:
-        n_tri, n_poly, n_tet, sizes = 3000, 2400, 1600, [3, 4, 6, 8, 10, 12]
+        n_tri, n_poly, n_tet, sizes = 3600, 2900, 1900, [3, 4, 6, 8, 10, 12]
     vrows = ["list", "tuple", "nprow", "vec"]
     irows = ["list", "tuple", "npint"]
     k = 0
